@@ -132,6 +132,13 @@ func runC04Expiry(c *Ctx, seed uint64) {
 			}
 			// next command: the prompt asks for the password again
 			if am.SensitiveDataRemoved() {
+				// the operator mistypes the password first: the prompt's check (InitKeys) must refuse it
+				am.SetEncryptionKey([]byte(world.Password + "x"))
+				c.Add("mistyped_passwords_entered_after_an_expiry", 1)
+				if err := am.InitKeys(); err == nil {
+					c.Violate("C04/wrong-password-accepted-after-expiry", fmt.Sprintf("after the password expired during %s the machine accepted a mistyped password (the prompt's check passed)", target), wit)
+				}
+				am.DropSensitiveData()
 				am.SetEncryptionKey([]byte(world.Password))
 				if err := am.LoadKeysFromDB(); err != nil {
 					c.Violate("C04/keys-do-not-load-with-right-password", fmt.Sprintf("after the password expired during %s: %v", target, err), wit)
